@@ -131,6 +131,11 @@ func purity(p, q *radius.Packet, f func(p, q *radius.Packet) readResult) string 
 	if snapshot(p) != mid {
 		alias = "1"
 	}
+	// … nor with anything a LATER read draws on (a table of masks, a pooled buffer): with the earlier result
+	// scribbled over, the same read gives what it gave before
+	if r3 := f(p, q); r3.repr != r2.repr {
+		alias = "1"
+	}
 	// undo so that later observers see the original packet if it was aliased
 	for _, s := range r1.slices {
 		for i := range s {
@@ -188,9 +193,23 @@ func evalC13(op string, args []string) string {
 		p.Attributes = toAttributes(parseAVPs(args[1]))
 		rs := helperReaders(e)
 		var out []string
+		// printing a value is a read as well: String() of numbers without a name leaves the exported X_Strings
+		// table as it was (its size is looked at; the names themselves are C12's business)
+		tableWritten := false
+		if e.Strings != nil && e.Str != nil {
+			n0 := len(e.Strings())
+			for _, k := range []uint64{4242, 0xfffffffe, 77, uint64(len(args[1])) + 1000} {
+				_ = e.Str(k)
+			}
+			tableWritten = len(e.Strings()) != n0
+		}
 		for _, n := range readerOrder {
 			if f, ok := rs[n]; ok {
-				out = append(out, n+":"+purity(p, q, f))
+				r := purity(p, q, f)
+				if tableWritten {
+					r = strings.Replace(r, "mut=0", "mut=1", 1)
+				}
+				out = append(out, n+":"+r)
 			}
 		}
 		return strings.Join(out, " ")
@@ -226,6 +245,23 @@ func evalC13(op string, args []string) string {
 				radius.IsAuthenticRequest(b2, secret)
 				radius.IsAuthenticResponse(b2, b, secret)
 				if !bytes.Equal(full(b2), o2) {
+					predBad = true
+				}
+			}
+		}
+		// … and give the same answer when asked again: an accounting-type request signed as RFC 2866 §3 says is
+		// authentic every time (and an Encode in between changes nothing)
+		if len(b) >= 20 && len(b) <= 4096 && len(secret) > 0 {
+			for _, c := range []byte{4, 40, 43} {
+				b2 := unhx(args[0])
+				b2[0] = c
+				copy(b2[4:20], make([]byte, 16))
+				copy(b2[4:20], md5sum(b2, secret))
+				r1 := radius.IsAuthenticRequest(b2, secret)
+				(&radius.Packet{Code: radius.Code(c), Secret: secret}).Encode()
+				r2 := radius.IsAuthenticRequest(b2, secret)
+				r3 := radius.IsAuthenticRequest(b2, secret)
+				if !r1 || !r2 || !r3 {
 					predBad = true
 				}
 			}
